@@ -129,6 +129,12 @@ func cmdCheck(args []string) int {
 		}
 		x.assumed["storage: SQLite stores the value bound to parameter $x of an INSERT/UPDATE in column x and returns it unchanged from a SELECT of column x of that row (the parameter/column correspondence of the SQL constants is checked syntactically on every run)"] = true
 	}
+	if *prop == "C13" {
+		for i, pr := range cosmosTagsCheck(w) {
+			x.obls = append(x.obls, &Obligation{Name: fmt.Sprintf("cosmos#tags[%d]", i+1), Func: "cosmosdb entry struct tags", Kind: "sql", Failed: pr, Props: []string{*prop}})
+		}
+		x.assumed["storage: Cosmos DB returns the document stored under an item id unchanged, applies a patch operation to the JSON field its path names, and a query returns the documents it selects (the patch paths used by the updaters are checked against the json tags of the entry structs on every run)"] = true
+	}
 	for _, k := range keys {
 		x.verifyFunction(db.contracts[k])
 	}
